@@ -15,6 +15,14 @@ use util::sort_result;
 #[cfg(test)]
 mod testlib;
 
+/// verif hook (cfg emmyluals_emmylua_analyzer_rust_verif): re-exports of the emission kernel so that
+/// an external harness can drive `desc_to_lines`, `sort_result` and `BacktrackPoint` directly.
+/// Add-only, no behaviour.
+#[cfg(emmyluals_emmylua_analyzer_rust_verif)]
+pub mod verif {
+    pub use crate::util::{BacktrackPoint, desc_to_lines, sort_result};
+}
+
 #[derive(Debug, Clone, Eq, PartialEq)]
 pub enum DescItemKind {
     /// Generic block of documentation.
